@@ -39,6 +39,7 @@ def segment : Nat → List Bytes → List Item
 structure FS where
   touched : List Bytes := []      -- paths modified behind the editor's back since it last read/wrote them
   faultArmed : List (Nat × Nat) := []
+  over : List (Bytes × Option Bytes) := []   -- file contents set by directives since the last dumped state
 
 def fileOf (st : Step) (p : Bytes) : Option Bytes := (st.files.find? (fun f => f.1 == str p)).bind (·.2)
 def curBuf (st : Step) : Option BufInfo := st.bufs.find? (·.slot == 0)
@@ -65,7 +66,8 @@ def refresh (j : JB) (st : Step) : JB :=
 
 def judgeBufStep (mode : Nat) (j : JB) (prev next : Step) (ln txt : Bytes) : JB :=
   let _ := txt
-  let single := isSingle ln
+  let known := (Ex.exIdx (splitCmd ln).2.1).isSome
+  let single := isSingle ln && known
   let (loc, cmdB, arg) := splitCmd ln
   let cmd := str cmdB
   let pc := curBuf prev
@@ -73,13 +75,7 @@ def judgeBufStep (mode : Nat) (j : JB) (prev next : Step) (ln txt : Bytes) : JB 
   let bang := hasBangS cmd
   let base := cmd.replace "!" ""
   let mut_errs : List String := []
-  -- ---------- C02: clean flag sound for every buffer, before looking at the command
-  let e02a := if mode != 2 then [] else
-    next.bufs.filterMap (fun b =>
-      match (ghostOf j b.id).bind (·.disk) with
-      | some d => none.orElse (fun _ => if !b.dirty && b.text != d && !(base == "e" || base == "w" || base == "wq" || base == "x" || base == "xa" || base == "ew") then
-          some s!"clause=clean_sound buffer={b.id} reports clean but text={bytesHex b.text} disk={bytesHex d} after {str ln}" else none)
-      | none => none)
+  let e02a : List String := []
   -- ---------- guards (C02) and switching (C20)
   let anyDirtyTruth := prev.bufs.any (fun b => match (ghostOf j b.id).bind (·.disk) with | some d => b.text != d | none => false)
   let curDirtyTruth := match pc with
@@ -136,7 +132,10 @@ def judgeBufStep (mode : Nat) (j : JB) (prev next : Step) (ln txt : Bytes) : JB 
       let own := target == cb.path
       let existed := (fileOf prev target).isSome
       let newer := j.fs.touched.contains target
-      let before := fileOf prev target
+      let before := match j.fs.over.find? (·.1 == target) with | some o => o.2 | none => fileOf prev target
+      let existed := before.isSome
+      let regionOk := loc.isEmpty || (match refRegion (RefSt.ofText cb.text) prev.xrow true loc with
+        | some (some r, _, s) => validRegion s r | _ => false)
       let after := fileOf next target
       let errFault := j.fs.faultArmed.any (fun f => f.2 == 101) && next.fired > 0
       let onlyShort := !j.fs.faultArmed.isEmpty && j.fs.faultArmed.all (fun f => f.2 != 101)
@@ -154,9 +153,9 @@ def judgeBufStep (mode : Nat) (j : JB) (prev next : Step) (ln txt : Bytes) : JB 
         [s!"clause=guard_newer {str ln} replaced {str target} although it changed after the editor read it"] else [])
       ++ (if errFault && base == "w" && next.rc == 0 then [s!"clause=fail_surfaces {str ln}: a system call failed but the command reported success"] else [])
       ++ (if errFault && base != "w" && next.quit then [s!"clause=fail_surfaces {str ln}: a system call failed but the editor quit"] else [])
-      ++ (if errFault && cb.dirty && (match nc with | some b => b.id == cb.id && !b.dirty | none => false) then
+      ++ (if errFault && cb.dirty && after != some cb.text && (match nc with | some b => b.id == cb.id && !b.dirty | none => false) then
             [s!"clause=fail_surfaces {str ln}: the write failed but the buffer is marked clean"] else [])
-      ++ (if onlyShort && !j.fs.faultArmed.isEmpty && base == "w" && !(existed && !own && !bang) && !(newer && !bang) && next.rc != 0 then
+      ++ (if onlyShort && regionOk && !j.fs.faultArmed.isEmpty && base == "w" && !(existed && !own && !bang) && !(newer && !bang) && next.rc != 0 then
             [s!"clause=short_writes_complete {str ln}: only short counts were injected but the command failed"] else [])
       ++ (if base == "w" && next.rc == 0 && (str next.msg).contains "[w]" && after != some written then
             [s!"clause=success_exact {str ln}: reported success but the file holds {bytesHex (after.getD [])} instead of {bytesHex written}"] else [])
@@ -180,7 +179,14 @@ def judgeBufStep (mode : Nat) (j : JB) (prev next : Step) (ln txt : Bytes) : JB 
         -- the buffer was (re)loaded from its file, or created for a file that does not exist
         let j := setGhost j { g with disk := some (if msg.contains "[r]" then b.text else []), savedAt := some b.histU }
         { j with fs := { j.fs with touched := j.fs.touched.filter (· != b.path) } }
-      else if isWrite && (msg.contains "[w]") then
+      else j
+  -- a successful write concerns the buffer that was current when the command started
+  let j := match pc.bind (fun p => bufById next p.id) with
+    | none => j
+    | some b =>
+      let g := (ghostOf j b.id).getD { id := b.id, disk := none, text := b.text, row := b.row, dirty := b.dirty, histU := b.histU, histN := b.histN, savedAt := none }
+      let msg := str next.msg
+      if isWrite && (msg.contains "[w]") then
         let target := if arg.isEmpty || base != "w" then b.path else arg
         if target == b.path then
           let wr := (fileOf next target).getD b.text
@@ -188,14 +194,28 @@ def judgeBufStep (mode : Nat) (j : JB) (prev next : Step) (ln txt : Bytes) : JB 
           { j with fs := { j.fs with touched := j.fs.touched.filter (· != b.path) } }
         else j
       else j
-  { j with fs := { j.fs with faultArmed := [] } }
+  -- ---------- C02: after the bookkeeping, the clean flag must be sound for every buffer
+  let e02late := if mode != 2 then [] else
+    next.bufs.filterMap (fun b =>
+      match (ghostOf j b.id).bind (·.disk) with
+      | some d => if !b.dirty && b.text != d then
+          some s!"clause=clean_sound buffer={b.id} reports clean but text={bytesHex b.text} disk={bytesHex d} after {str ln}" else none
+      | none => none)
+  -- a buffer reported once is not judged again until it is loaded or saved anew
+  let j := if e02late.isEmpty then j else
+    next.bufs.foldl (fun j b => match ghostOf j b.id with
+      | some g => (match g.disk with
+        | some d => if !b.dirty && b.text != d then setGhost j { g with disk := none } else j
+        | none => j)
+      | none => j) j
+  { j with errs := j.errs ++ e02late.take 1, fs := { j.fs with faultArmed := [], over := [] } }
 
 def applyDirective (j : JB) (ln : Bytes) : JB :=
   let ws := ((str ln).splitOn " ").filter (· ≠ "")
   match ws with
   | ["@@touch", a] => { j with fs := { j.fs with touched := byt a :: j.fs.touched } }
-  | ["@@writefile", a, _] => { j with fs := { j.fs with touched := byt a :: j.fs.touched } }
-  | ["@@rm", a] => { j with fs := { j.fs with touched := j.fs.touched.filter (· != byt a) } }
+  | ["@@writefile", a, d] => { j with fs := { j.fs with touched := byt a :: j.fs.touched, over := (byt a, some (hexBytes d)) :: j.fs.over } }
+  | ["@@rm", a] => { j with fs := { j.fs with touched := j.fs.touched.filter (· != byt a), over := (byt a, none) :: j.fs.over } }
   | ["@@fault", a] => { j with fs := { j.fs with faultArmed := (a.splitOn ",").map (fun t =>
         match t.splitOn ":" with
         | [i, k] => (natOf i, (k.toList.headD 'e').toNat)
